@@ -76,3 +76,20 @@ func (e *Engine) RunInit(st *State, pkg *ssa.Package) {
 		e.Stats.Paths = 0
 }
 }
+
+// PreloadGlobals allocates every registered native global and every global of
+// the interpreted packages in st, so that later states agree on them.
+func (e *Engine) PreloadGlobals(st *State) {
+	for _, p := range e.Prog.AllPackages() {
+		for _, m := range p.Members {
+			g, ok := m.(*ssa.Global)
+			if !ok {
+				continue
+			}
+			name := p.Pkg.Path() + "." + g.Name()
+			if _, isNative := e.NativeGlob[name]; isNative || e.InterpPkgs[p.Pkg.Path()] {
+				e.globalPtr(st, g)
+			}
+		}
+	}
+}
